@@ -41,7 +41,7 @@ InputOf(r) == [f \in DOMAIN NoInput |-> r.i[f]]
 
 EnvOK(r) == /\ LegalInput(InputOf(r))
             /\ r.n >= 1
-            /\ (r.n > 1 => ~AnyStrobe(InputOf(r)) /\ ~r.i.rst)
+            /\ (r.n > 1 => ~AnyStrobe(InputOf(r)) /\ ~r.i.rst /\ ~r.i.drst)
 
 \* --- verdict pass --------------------------------------------------------
 MonStep(r) ==
